@@ -23,8 +23,10 @@ RULE = ("seeded sequences of control frames (subscribe/unsubscribe/pause/resume 
         "frame kind present; distinct = distinct step-list hash")
 ASSUMPTIONS = ["a sender that is itself a logger may see 1 or 2 ACK frames per request (answer + logger copy)",
                "a refused connection may appear as EOF or reset",
-               "a second handshake on an already connected module is not generated (statement silent)"]
-REQUIRE = {"acks_expected": 300, "never_acked_frames": 100, "logger_copies_expected": 100}
+               "a repeated handshake on an already accepted connection must not be acknowledged again (the current code ignores it)",
+               "a not-writable report for a sender does not excuse its acknowledgement; its self-addressed markers of that round are dropped legitimately and ignored"]
+REQUIRE = {"acks_expected": 300, "never_acked_frames": 100, "logger_copies_expected": 100,
+           "acks_owed_to_not_writable_sender": 30}
 MARK = 7777
 CASE_TIMEOUT = 120
 
@@ -83,7 +85,12 @@ def gen(rng: random.Random, tier):
                           ["sub", N, MARK], ["drain"]]
                 live.append(N)
         if rng.random() < 0.4:
-            steps.append(["round", {"seed": rng.getrandbits(30)}])
+            opt = {"seed": rng.getrandbits(30)}
+            if live and rng.random() < 0.35:
+                # the round's writability snapshot reports some modules not writable: data for them is dropped, but an
+                # acknowledgement is owed to its requester regardless
+                opt["nw"] = rng.sample(live, rng.randint(1, len(live)))
+            steps.append(["round", opt])
     steps.append(["drain"])
     return steps
 
@@ -123,6 +130,7 @@ def judge(sc: Scenario, case):
     logexp = {L: [] for L in sc.cl}       # for loggers: dest ids of ACK copies expected, in order (None=own)
     loggers = []
     never = 0
+    ignored = set()    # markers published in a round whose snapshot reported the (non-logger) publisher not writable
     for rec in sc.rounds:
         for L, d, out in rec["frames"]:
             k = d["kind"]
@@ -139,7 +147,9 @@ def judge(sc: Scenario, case):
                 acked = True
             elif k == "pub":
                 never += 1
-                if d["t"] == MARK and L in (out.get("must") or []):
+                if d["t"] == MARK and L in rec.get("nw", ()) and L not in loggers:
+                    ignored.add(d["id"])
+                elif d["t"] == MARK and L in (out.get("must") or []):
                     exp[L].append(("M", d["id"]))
             elif k in ("disc", "eof"):
                 never += 1
@@ -148,6 +158,8 @@ def judge(sc: Scenario, case):
             else:
                 never += 1
             if acked:
+                if L in rec.get("nw", ()):
+                    C["acks_owed_to_not_writable_sender"] = C.get("acks_owed_to_not_writable_sender", 0) + 1
                 exp[L].append("A")
                 for G in loggers:
                     if G != L:
@@ -174,7 +186,7 @@ def judge(sc: Scenario, case):
                 else:
                     others.append(f.dest_mod)
             elif f.pid in sc.pubs and f.msg_type == MARK \
-                    and sc.pubs[f.pid]["by"] == L:
+                    and sc.pubs[f.pid]["by"] == L and f.pid not in ignored:
                 got.append(("M", f.pid))
         C["acks_expected"] = C.get("acks_expected", 0) + exp[L].count("A")
         ok = match(exp[L], got, is_logger)
